@@ -912,7 +912,15 @@ pub fn gen_c03(rng: &mut Rng, _run: u64, _thorough: bool) -> Trace {
                 }
                 s.push_str(im);
                 s.push(f);
-                bytes.extend(s.into_bytes());
+                // the same function several times over: a clamp that reads state the function itself
+                // changes (scrollback height, cursor row, margins) compounds from call to call
+                let times = if rng.chance(1, 3) { 2 + rng.usize(15) } else { 1 };
+                for _ in 0..times {
+                    bytes.extend(s.as_bytes());
+                }
+                if times > 1 {
+                    t.labels.push("shape=repeated".into());
+                }
                 target = format!("csi:{pr}{im}{f}");
             }
             6 => {
